@@ -44,6 +44,26 @@ pub fn emit_src(em: &mut Emit, src: &str, tags: &str) {
     em.case(&req, &parse_impl(src), tags, src);
 }
 
+/// `Program::compile` (the entry point of the interpreter crate) gives the parser's answer for
+/// exactly the text it was given: accepted iff the parser accepts, with the parser's tree.
+pub fn emit_compile_law(em: &mut Emit, src: &str) {
+    let s = src.to_string();
+    let law = guarded(move || {
+        let parsed = cel_parser::Parser::default().parse(&s);
+        let compiled = cel_interpreter::Program::compile(&s);
+        match (parsed, compiled) {
+            (Ok(e), Ok(p)) => {
+                if format!("{:?}", p) == format!("Program {{ expression: {:?} }}", e) { "(bool true)".into() }
+                else { format!("(law-violated program-differs-from-parse {:?})", p) }
+            }
+            (Err(_), Err(_)) => "(bool true)".into(),
+            (Ok(_), Err(_)) => "(law-violated compile-rejects-what-the-parser-accepts)".into(),
+            (Err(_), Ok(p)) => format!("(law-violated compile-accepts-what-the-parser-rejects {:?})", p),
+        }
+    });
+    em.case("(echo (bool true))", &law, "nt=1;kind=law-compile", src);
+}
+
 fn enumerate(em: &mut Emit, alpha: &[&str], len: usize, sep: &str, kind: &str) {
     let mut idx = vec![0usize; len];
     loop {
@@ -258,6 +278,20 @@ pub fn run(em: &mut Emit, thorough: bool, seed: u64) {
               "a\n+\nb", "a // c", "// only", "a /", "&", "|", "=", "a = b", "a.b.c(d)[e].f", "[[[[1]]]]", "((((a))))"] {
         emit_src(em, s, "nt=1;kind=corpus");
     }
+    // characters that are white space to Unicode but not to CEL (and the other way round), at
+    // either end of and inside valid expressions: through the parser and through Program::compile
+    for ws in ["\u{a0}", "\u{2003}", "\u{3000}", "\u{2028}", "\u{2029}", "\u{85}", "\u{b}", "\u{feff}", "\u{200b}", "\u{1680}", "\u{c}", "\t", "\r", "\n", " ",
+               "\u{1c}", "\u{1f}", "\u{0}"] {
+        for e in ["1 + 2", "[1, 2].map(x, x * 2)", "a", "'s'", "f(x)"] {
+            for src in [format!("{}{}", ws, e), format!("{}{}", e, ws), format!("{}{}{}", ws, e, ws), e.replacen(' ', ws, 1), format!("{}{}", e, ws.repeat(3))] {
+                emit_src(em, &src, "nt=1;kind=unicode-space");
+                emit_compile_law(em, &src);
+            }
+        }
+    }
+    for s in ["", "1 +", "a", " a ", "\n1\n", "[1, 2].map(x, x * 2)", "has(a.b)", "x.map(1)", "'\\q'", "1 + ", " ", "\t", "a b", "1u", "-9223372036854775808"] {
+        emit_compile_law(em, s);
+    }
     // an error about an argument that is itself a failed macro (the placeholder has no offset)
     for s in ["has(has(x))", "has(x.all(1, y))", "[1].map(has(1), 2)", "x.all(has(1), true)", "has(has(has(1)))",
               "x.map(1, 2).map(3, 4)", "has(\n has(x))", "'é' + has(has(x))"] {
@@ -335,6 +369,9 @@ pub fn run(em: &mut Emit, thorough: bool, seed: u64) {
         let toks: Vec<&str> = (0..len).map(|_| *rng.pick(TOKENS)).collect();
         let sep = if rng.chance(1, 4) { "" } else { " " };
         emit_src(em, &toks.join(sep), "nt=1;kind=rnd-tokens");
+        if rng.chance(1, 8) {
+            emit_compile_law(em, &toks.join(sep));
+        }
     }
     // literals with every kind of escape, alone and inside expressions
     for _ in 0..n {
